@@ -54,7 +54,8 @@ type c04AskT struct {
 	idx       int
 	req       c04Req
 	timeout   time.Duration
-	fromActor int // -1 = outside goroutine
+	implicit  bool // issued without a timeout: the asking actor's default applies (timeout holds its value for the oracle)
+	fromActor int  // -1 = outside goroutine
 	askAt     time.Duration
 	waiters   int
 	closeAt   time.Duration // <0 none
@@ -134,8 +135,16 @@ func c04AskMode(r *R, deathFocus, viaRestart bool) {
 			mu.Unlock()
 		}
 	}
+	// every asking actor has a default Ask timeout of its own (it takes precedence over the system's, one second): an Ask
+	// that names no timeout is governed by it - shorter than the system's for a0, longer for the others
+	ownDefault := func(i int) time.Duration {
+		if i == 0 {
+			return 300 * time.Millisecond
+		}
+		return 3 * time.Second
+	}
 	for i := 0; i < nAskers; i++ {
-		spec := &Spec{Name: fmt.Sprintf("a%d", i)}
+		spec := &Spec{Name: fmt.Sprintf("a%d", i), Options: []vivid.ActorOption{vivid.WithActorDefaultAskTimeout(ownDefault(i))}}
 		if viaRestart && i == 0 {
 			// a child that takes a while to die keeps the restart (and a kill arriving meanwhile) waiting
 			spec.Children = []*Spec{{Name: "c", OnKill: func(ctx vivid.ActorContext, p *Probe) { vsimrt.Sleep(150 * time.Millisecond) }}}
@@ -166,6 +175,11 @@ func c04AskMode(r *R, deathFocus, viaRestart bool) {
 		if a.pipe > 0 {
 			a.nFwd = 1 + r.Choose(2)
 		}
+		if a.fromActor >= 0 && !stalled && r.Chance(30) {
+			a.implicit = true
+			a.timeout = ownDefault(a.fromActor)
+			r.Count("ask-without-a-timeout-of-its-own (the asking actor's default applies)")
+		}
 		asks = append(asks, a)
 		adesc = append(adesc, fmt.Sprintf("ask%d mode=%s delay=%v timeout=%v from=%d waiters=%d close=%v pipe=%s/%d", i,
 			[]string{"once", "twice", "late", "error", "never"}[a.req.Mode], a.req.Delay, a.timeout, a.fromActor, a.waiters, a.closeAt, []string{"-", "before", "around", "after"}[a.pipe], a.nFwd))
@@ -189,7 +203,7 @@ func c04AskMode(r *R, deathFocus, viaRestart bool) {
 				a.req.Mode = 4
 			}
 			if a.timeout <= killAt || (viaRestart && a.timeout <= killAt+time.Second) {
-				a.timeout = 30 * time.Second
+				a.timeout, a.implicit = 30*time.Second, false
 			}
 		}
 	}
@@ -269,11 +283,19 @@ func c04AskMode(r *R, deathFocus, viaRestart bool) {
 				startWaiters(a, f)
 			})
 		} else {
+			if a.implicit {
+				a.timeout = ownDefault(a.fromActor) // the asker may have been re-assigned since the plan was drawn
+			}
 			w.Tell(w.RefBy("create", nil, fmt.Sprintf("/a%d", a.fromActor)), w.NewCmd("ask", a.idx, func(ctx vivid.ActorContext, p *Probe) {
 				mu.Lock()
 				a.askAt = w.now()
 				mu.Unlock()
-				f := ctx.Ask(target, a.req, a.timeout)
+				var f vivid.Future[vivid.Message]
+				if a.implicit {
+					f = ctx.Ask(target, a.req)
+				} else {
+					f = ctx.Ask(target, a.req, a.timeout)
+				}
 				startWaiters(a, f)
 			}))
 		}
